@@ -213,6 +213,12 @@ class ControllerStack (object):
     import pox.openflow.of_01 as of01
     self.core, self.ofm, self.of01 = core, ofm, of01
     if clock is not None: of01.time = clock
+    # drop the subscriptions earlier (discarded) nexus objects left on the core singleton: they would keep
+    # every previous execution's object graph alive
+    hd = core.__dict__.get("_eventMixin_handlers") or {}
+    for et, lst in list(hd.items()):
+      hd[et] = [x for x in lst
+        if type(getattr(x[1], "__self__", None)).__name__ != "OpenFlowNexus"]
     self.nexus = ofm.OpenFlowNexus()
     self.arbiter = ofm.OpenFlowConnectionArbiter()
     core.components["openflow"] = self.nexus
